@@ -488,7 +488,7 @@ def c18(res, thorough):
                    "DHP and the other RCU flavours share the code paths and are not dumped"],
              partial=["'every reachable quiescent state is well-formed' as a theorem: proved for the MichaelList, LazyList, SplitListSet machines (SplitListSet incl. the item counter = number of keys and the bucket-table dump at quiescence: "
                       "C18_splitlist_quiescent_size, C18_splitlist_quiescent_table_dump) and for level 0 of the SkipListSet machine (Props/C18Reach, every reachable state, not only quiescent ones; "
-                      "Michael, Lazy and SplitList additionally tied by comparing the real final structure with the machine's final state); skip-list upper levels: links point forward and levels are non-decreasing (proved), the sub-list clause is evaluated on every replayed state "
+                      "Michael, Lazy, SplitList and SkipList (all levels) additionally tied by comparing the real final structure with the machine's final state); skip-list upper levels: links point forward and levels are non-decreasing (proved), the sub-list clause is evaluated on every replayed state "
                       "and C15_invB_skipWf proves that this evaluation implies skipWf of the full dump; NOT proved: the sub-list clause as an invariant, EllenBinTree, BronsonAVLTreeMap, IterableList (explored schedules only)"])
     res.cov["rule"] = ("cases = (client program, schedule) pairs; after each program the main thread dumps the structure; distinct = distinct (variant, atomic-operation sequence hash); "
                        "non-trivial = contains a failed CAS or a back-off; sequential runs (one thread) are included as a separate run")
@@ -503,6 +503,9 @@ def c18(res, thorough):
     tie_A(res, "list", "michael", [{"args": ["--mode", "mixed", "--threads", "4", "--ops", "5", "--variant", "imichael_hp_named"], "cases": 8000 if thorough else 1000}])
     tie_A(res, "list", "lazy", [{"args": ["--mode", "mixed", "--threads", "4", "--ops", "5", "--variant", "ilazy_hp_named"], "cases": 8000 if thorough else 1000}])
     tie_A(res, "hashset", "splitlist", [{"args": ["--mode", "mixed", "--threads", "4", "--ops", "5", "--variant", "isset_michael_hp_named"], "cases": 8000 if thorough else 1000}])
+    # skip list: ALL levels of the real final structure against the machine's final state; the replay also evaluates invB on every state, and
+    # C15_invB_skipWf proves that invB implies skipWf of this dump (the sub-list clause C18 names)
+    tie_A(res, "tree", "skiplist", [{"args": ["--mode", "mixed", "--threads", "4", "--ops", "5", "--variant", "iskipset_hp_named"], "cases": 8000 if thorough else 1000}])
     # the leftovers that matter are rare (a marked node left linked, a stale height): dense runs on the variants that can have them
     for v in ("michael_hp", "michael_hp_cnt", "split_michael_hp", "bronson_gpi", "bronson_gpi_cnt", "bronson_gpi_relaxed", "skip_hp", "lazy_hp"):
         steps.tie_S(res, "snap", [{"args": ["--mode", "mixed", "--threads", "3", "--ops", "5", "--variant", v], "cases": 16000 if thorough else 5000}], label="snap-dense")
@@ -537,12 +540,12 @@ def c20(res, thorough):
     base_cov(res, ["allocators, functor bodies", "size()/empty()/clear() and disposer counts are not part of the generated programs of the set/map clients (item counters are checked by the queue client's *_ic variant only)",
                    "variants are those of the concurrent clients (about 190); the full trait matrix of test/unit is not enumerated"],
              partial=["functor argument/new-flag logs and disposer counts: only partly observable through the payload returned by find/erase functors",
-                      "C20 as a theorem: proved for the 14 machines of Props/C20Seq and the flat-combining containers (C20_<name>_sequential: every single-threaded complete run returns exactly the results of Spec.lifo / fifo / bfifo / map / deque / the deterministic max-pq; "
+                      "C20 as a theorem: proved for the 14 machines of Props/C20Seq, the ring buffer, TaggedFreeList and (under 'returns' and 'nothing lost') the sequential CuckooSet model (Props/C20Seq2) and the flat-combining containers (C20_<name>_sequential: every single-threaded complete run returns exactly the results of Spec.lifo / fifo / bfifo / map / deque / the deterministic max-pq; "
                       "generic lemma: a sequential history is linearizable iff it is the specification's own run); BasketQueue (proved against the pool only), MSPriorityQueue, SegmentedQueue, EllenBinTree, Bronson, CuckooSet (sequential model with insert / erase laws in Props/C17Cuckoo), "
                       "IterableList and the container:: wrappers: decided by judged sequential histories only"])
     res.cov["rule"] = ("single-threaded operation sequences (one scheduled thread, 10-14 operations, key space 2-8, colliding hashes) on every variant of every client, judged against the STRICT sequential "
                        "specification (Spec.map / fifo / bfifo / lifo / deque / maxpq) by the verified checker; distinct = distinct (variant, program); non-trivial = every case (each has at least one failing and one succeeding operation is not required)")
-    lean_step(res, ["CdsVerif.Props.C20", "CdsVerif.Props.C20Seq"], thorough)
+    lean_step(res, ["CdsVerif.Props.C20", "CdsVerif.Props.C20Seq", "CdsVerif.Props.C20Seq2"], thorough)
     # Props/C20Seq: a single-threaded complete run of each proved machine returns exactly what the sequential specification returns.
     # Tie of those corollaries inside this check: single-threaded traces of the real code replayed against the same machines.
     from elim_pre import elim_pre
